@@ -20,6 +20,24 @@ def run(ctx):
     gens.append(("one_sub", to_cases(take(h, 3000 if q else 50000, ctx.seed))))
     h, r = ctx.gen("two_subs", "GenSubs", dict(two, MaxDepth=4 + (5 if q else 7)))
     gens.append(("two_subs", to_cases(take(h, 1500 if q else 50000, ctx.seed))))
+    # eviction when another subscription goes away: both subscriptions hold retained notifications (k each, 2k within the
+    # limit of 4 per subscription), one of them is deleted (the limit shrinks to 4), a tick evicts; what is retained for the
+    # surviving subscription alone was never over the limit and must still be there
+    for k in (2, 3, 4) if q else (2, 3, 4, 5):
+        ev = []
+        for gone in (1, 2):
+            sc = list(s2)
+            for j in range(k):
+                v = 1 + (j % 2)
+                sc += [["Pub"], ["Pub"], ["Write", 1, v], ["Tick", 1]]
+            sc += [["DeleteSub", gone], ["Tick", 1]]
+            ev.append(sc)
+        # after the script: two more calls (Republish of anything retained, publish requests with acknowledgements)
+        evc = consts(SubIds={1, 2}, Vals={0, 1, 2}, Acts={"Republish", "Pub"}, Scripts=scripts(ev), AckModes={"one", "bogus"}, MaxPubs=99,
+                     MaxDepth=len(ev[0]) + 2)
+        ctx.model_check("design_evict_%d" % k, "MCSubs", dict(evc, Mons={"C40"}), ["C40"], view="MView")
+        h, r = ctx.gen("evict_%d" % k, "GenSubs", evc)
+        gens.append(("evict_%d" % k, to_cases(take(h, 600 if q else 8000, ctx.seed))))
     n = 300 if q else 4000
     h, r = ctx.gen("random", "GenSubs", dict(two, MaxDepth=40, MaxWrites=14, MaxPubs=18, MaxTicks=18),
                    simulate="num=%d" % max(20, n // 8))
